@@ -9,6 +9,12 @@ import polfam
 import vlib
 
 FAULTS = ["none", "noargs", "nofile", "unreadable", "badyaml", "wrongtype", "unknownaction", "unknownsyscall", "nosyscalls", "kernelrefuses", "notarget"]
+# the same fault classes in other places of the file (Sandbox.tla does not distinguish them: they are realisations of "unknownsyscall")
+UNKNOWN_VARIANTS = {
+    "in a group whose action is the default action": "seccomp:\n  default_action: allow\n  syscalls:\n  - action: allow\n    names:\n    - tuxcall\n    - verif_no_such_syscall\n  - action: errno\n    names:\n    - security\n",
+    "in names_with_args": "seccomp:\n  default_action: allow\n  syscalls:\n  - action: errno\n    names:\n    - security\n    names_with_args:\n    - name: verif_no_such_syscall\n      arguments:\n      - argument: 0\n        operation: Equal\n        value: 1\n",
+    "in the last of three groups": "seccomp:\n  default_action: allow\n  syscalls:\n  - action: errno\n    names:\n    - tuxcall\n  - action: log\n    names:\n    - security\n  - action: trap\n    names:\n    - verif_no_such_syscall\n",
+}
 MC_CFG = """CONSTANTS
   Faults = {%s}
   Dev = {}
@@ -213,6 +219,13 @@ def check(ctx, replay=None):
                             viol("the target's output is unreadable: %s" % e, res)
                 if use_strace and res["strace"] and os.path.exists(res["strace"]):
                     traces.append((eff_fault, strace_events(res["strace"], os.path.basename(res["target"]), eff_fault), res))
+    for where, text in UNKNOWN_VARIANTS.items():
+        idx += 1
+        res = run_sandbox(d, scratch, "none", idx, policy_text=text)
+        ctx.cov["evaluations"] += 1
+        ctx.cov["distinct_nontrivial"] += 1
+        if res is not None and (res["rc"] == 0 or res["marker"]):
+            viol("an unknown syscall name %s: %s" % (where, "the target was started" if res["marker"] else "exit status 0"), res, {"policy": text})
     # (a2) large policy files: what matters sits behind 64 KiB / 1 MiB of padding
     for size in (70000, 1100000) if th else (70000,):
         idx += 1
@@ -259,21 +272,33 @@ def check(ctx, replay=None):
             if not found:
                 ctx.drift({"trace": "SandboxTrace rejected the recorded events although no run execs the target before a successful seccomp"})
     # (c) the target sees Decide: policies of the compiler scopes through the documented YAML path
-    j, out = polfam.gen_job(ctx, "many", stride=1, name="many_sandbox", with_model=False)
-    ctx.tlc(**j)
-    rows = vlib.read_ndjson(out)
-    header, cases = rows[0], [c for c in rows[1:] if not c["reject"] and c["pol"]["x86"] and c["pol"]["def"] == "allow"]
     import random
     rnd = random.Random(ctx.seed)
-    rnd.shuffle(cases)
     sys = cmdfam.PROBES
-    for k, c in enumerate(cases[:(600 if th else 25)]):
+    todo = []
+    # scope many: conditional entries, the same syscall in several groups; scope groups2: name lists whose group action may EQUAL the default
+    # action (such a group still shadows later groups)
+    for scope, kw, n in (("many", {}, 600 if th else 25), ("groups2", dict(NSys=3), 400 if th else 25)):
+        j, out = polfam.gen_job(ctx, scope, stride=1, name=scope + "_sandbox", with_model=False, **kw)
+        ctx.tlc(**j)
+        rows = vlib.read_ndjson(out)
+        cs = [c for c in rows[1:] if not c["reject"] and c["pol"]["x86"] and c["pol"]["def"] == "allow"]
+        if scope == "groups2":
+            # prefer the policies in which a group with the default action comes before another group
+            cs.sort(key=lambda c: not any(g["act"] == "allow" and g["names"] for g in c["pol"]["groups"][:-1]))
+            head = cs[:n * 2]
+            rnd.shuffle(head)
+            cs = head
+        else:
+            rnd.shuffle(cs)
+        todo += [(rows[0], c) for c in cs[:n]]
+    for k, (header, c) in enumerate(todo):
         probes, want = [], []
         for ev, dec in zip(header["events"], c["ideal"]):
             if ev["arch"] != "own" or ev["nr"] >= header["x32bit"] or dec not in ("allow", "errno|EPERM"):
                 continue
             nr = sys[ev["nr"]][1] if ev["nr"] < header["nsys"] else sys[5][1]
-            a = [((ev["args"][str(i)] // 2) << 32) | (ev["args"][str(i)] % 2) for i in (0, 1)]
+            a = [((ev["args"].get(str(i), 0) // 2) << 32) | (ev["args"].get(str(i), 0) % 2) for i in (0, 1)]
             probes.append("%d:%d:%d" % (nr, a[0], a[1]))
             want.append(38 if dec == "allow" else 1)
         if any(d == "kill_process" for d in c["ideal"]) and False:
